@@ -211,4 +211,23 @@ theorem skel_SessionStore_makeSessionCookie_ok : skel_SessionStore_makeSessionCo
   "splitCookie",
   "return []*http.Cookie{c}, nil"] : List String) := rfl
 
+theorem flags_cookie_ok : flags_cookie = ([
+  "Duration cookie-csrf-expire = time.Duration(15) * time.Minute",
+  "Bool cookie-csrf-per-request = false",
+  "StringSlice cookie-domain = []string{}",
+  "Duration cookie-expire = time.Duration(168) * time.Hour",
+  "Bool cookie-httponly = true",
+  "String cookie-name = \"_oauth2_proxy\"",
+  "String cookie-path = \"/\"",
+  "Duration cookie-refresh = time.Duration(0)",
+  "String cookie-samesite = \"\"",
+  "String cookie-secret = \"\"",
+  "Bool cookie-secure = true"] : List String) := rfl
+
+theorem cfgText_cookieDefaults_ok : cfgText_cookieDefaults = ([
+  "func cookieDefaults {",
+  "{ return Cookie{ Name: \"_oauth2_proxy\", Secret: \"\", Domains: nil, Path: \"/\", Expire: time.Duration(168) * time.Hour, Refresh: time.Duration(0), Secure: true, HTTPOnly: true, SameSite: \"\", CSRFPerRequest: false, CSRFExpire: time.Duration(15) * time.Minute, } }",
+  "func sessionOptionsDefaults {",
+  "{ return SessionOptions{ Type: CookieSessionStoreType, Cookie: CookieStoreOptions{ Minimal: false, }, } }"] : List String) := rfl
+
 end O2P.Expect.C09
